@@ -94,3 +94,83 @@ pub broadcast group group_root {
     lemma_root_reconstructed,
     lemma_root_implied, lemma_root_pop_until, lemma_scope_match, lemma_match_after_implied, lemma_root_trans,
 }
+
+// ---- the cases of the "in body" insertion mode, from the standard ----
+pub open spec fn tname(token: Token) -> LocalName { token->Tag_0.name }
+pub open spec fn is_start_tag(token: Token) -> bool { token matches Token::Tag(t) && t.kind == TagKind::StartTag }
+pub open spec fn is_end_tag(token: Token) -> bool { token matches Token::Tag(t) && t.kind == TagKind::EndTag }
+/// "A start tag whose tag name is one of: base, basefont, bgsound, link, meta, noframes, script, style, template, title" and
+/// "an end tag whose tag name is template": process by the in-head rules
+pub open spec fn b_head_level(token: Token) -> bool {
+    (is_start_tag(token) && (tname(token) == local_name!("base") || tname(token) == local_name!("basefont") || tname(token) == local_name!("bgsound") || tname(token) == local_name!("link")
+        || tname(token) == local_name!("meta") || tname(token) == local_name!("noframes") || tname(token) == local_name!("script") || tname(token) == local_name!("style")
+        || tname(token) == local_name!("template") || tname(token) == local_name!("title")))
+    || (is_end_tag(token) && tname(token) == local_name!("template"))
+}
+/// address, article, aside, blockquote, center, details, dialog, dir, div, dl, fieldset, figcaption, figure, footer, header, hgroup,
+/// main, menu, nav, ol, p, search, section, summary, ul
+pub open spec fn b_block_start(n: LocalName) -> bool {
+    n == local_name!("address") || n == local_name!("article") || n == local_name!("aside") || n == local_name!("blockquote") || n == local_name!("center") || n == local_name!("details")
+    || n == local_name!("dialog") || n == local_name!("dir") || n == local_name!("div") || n == local_name!("dl") || n == local_name!("fieldset") || n == local_name!("figcaption")
+    || n == local_name!("figure") || n == local_name!("footer") || n == local_name!("header") || n == local_name!("hgroup") || n == local_name!("main") || n == local_name!("menu")
+    || n == local_name!("nav") || n == local_name!("ol") || n == local_name!("p") || n == local_name!("search") || n == local_name!("section") || n == local_name!("summary") || n == local_name!("ul")
+}
+pub open spec fn b_heading(n: LocalName) -> bool {
+    n == local_name!("h1") || n == local_name!("h2") || n == local_name!("h3") || n == local_name!("h4") || n == local_name!("h5") || n == local_name!("h6")
+}
+/// end tags: address, article, aside, blockquote, button, center, details, dialog, dir, div, dl, fieldset, figcaption, figure, footer,
+/// header, hgroup, listing, main, menu, nav, ol, pre, search, section, select, summary, ul
+pub open spec fn b_block_end(n: LocalName) -> bool {
+    n == local_name!("address") || n == local_name!("article") || n == local_name!("aside") || n == local_name!("blockquote") || n == local_name!("button") || n == local_name!("center")
+    || n == local_name!("details") || n == local_name!("dialog") || n == local_name!("dir") || n == local_name!("div") || n == local_name!("dl") || n == local_name!("fieldset")
+    || n == local_name!("figcaption") || n == local_name!("figure") || n == local_name!("footer") || n == local_name!("header") || n == local_name!("hgroup") || n == local_name!("listing")
+    || n == local_name!("main") || n == local_name!("menu") || n == local_name!("nav") || n == local_name!("ol") || n == local_name!("pre") || n == local_name!("search")
+    || n == local_name!("section") || n == local_name!("select") || n == local_name!("summary") || n == local_name!("ul")
+}
+/// b, big, code, em, font, i, s, small, strike, strong, tt, u
+pub open spec fn b_fmt_start(n: LocalName) -> bool {
+    n == local_name!("b") || n == local_name!("big") || n == local_name!("code") || n == local_name!("em") || n == local_name!("font") || n == local_name!("i") || n == local_name!("s")
+    || n == local_name!("small") || n == local_name!("strike") || n == local_name!("strong") || n == local_name!("tt") || n == local_name!("u")
+}
+/// end tags: a, b, big, code, em, font, i, nobr, s, small, strike, strong, tt, u
+pub open spec fn b_fmt_end(n: LocalName) -> bool { b_fmt_start(n) || n == local_name!("a") || n == local_name!("nobr") }
+pub open spec fn b_void_start(n: LocalName) -> bool {
+    n == local_name!("area") || n == local_name!("br") || n == local_name!("embed") || n == local_name!("img") || n == local_name!("keygen") || n == local_name!("wbr")
+}
+/// caption, col, colgroup, frame, head, tbody, td, tfoot, th, thead, tr: parse error, ignore
+pub open spec fn b_ignored_start(n: LocalName) -> bool {
+    n == local_name!("caption") || n == local_name!("col") || n == local_name!("colgroup") || n == local_name!("frame") || n == local_name!("head") || n == local_name!("tbody")
+    || n == local_name!("td") || n == local_name!("tfoot") || n == local_name!("th") || n == local_name!("thead") || n == local_name!("tr")
+}
+/// "if the stack of open elements has a p element in button scope, then close a p element"
+pub open spec fn closed_p(st: Seq<Handle>) -> Seq<Handle> {
+    if w_in_scope(st, st.len() as int, is_html_named(local_name!("p")), set_button_scope()) {
+        w_pop_until(w_implied(st, implied_except(local_name!("p"))), name_is_html(local_name!("p")))
+    } else { st }
+}
+/// the <li> / <dd> / <dt> loop: node := current node; if node is an li (a dd or dt) element: that is the one to close; if node is
+/// special and not an address, div or p element: done; otherwise node := previous entry
+pub open spec fn w_li_close(st: Seq<Handle>, n: int, list: bool) -> Option<LocalName>
+    decreases n
+{
+    if n <= 0 { None } else {
+        let nm = elem_name_of(st[n - 1]);
+        if (list && nm == html_name(local_name!("li"))) || (!list && (nm == html_name(local_name!("dd")) || nm == html_name(local_name!("dt")))) { Some(nm.local) }
+        else if ts_special_tag(nm) && nm != html_name(local_name!("address")) && nm != html_name(local_name!("div")) && nm != html_name(local_name!("p")) { None }
+        else { w_li_close(st, n - 1, list) }
+    }
+}
+/// the stack after "generate implied end tags, except for X elements; pop until an X element has been popped"
+pub open spec fn closed_named(st: Seq<Handle>, x: LocalName) -> Seq<Handle> { w_pop_until(w_implied(st, implied_except(x)), name_is_html(x)) }
+/// the stack after "generate implied end tags; pop until an X element has been popped"
+pub open spec fn closed_cursory(st: Seq<Handle>, x: LocalName) -> Seq<Handle> { w_pop_until(w_implied(st, set_cursory()), name_is_html(x)) }
+pub open spec fn in_default_scope(st: Seq<Handle>, x: LocalName) -> bool { w_in_scope(st, st.len() as int, is_html_named(x), set_default()) }
+/// the empty attribute list of the <br> start tag that </br> is turned into
+pub uninterp spec fn m0_no_attrs() -> Vec<Attribute>;
+/// `vec![]` in the </br> rule (R32; ASSUMED glue: every empty vector is this one value)
+#[verifier::external_body]
+pub fn no_attrs() -> (r: Vec<Attribute>) ensures r == m0_no_attrs(), r@.len() == 0 { Vec::new() }
+/// the tree builder after one more parse error
+pub open spec fn erred(tb: TreeBuilder) -> TreeBuilder { TreeBuilder { sink: Sink { errs: Ghost(tb.sink.errs@ + 1), ..tb.sink }, ..tb } }
+/// "drop the attributes from the </br> token and act as for a <br> start tag"
+pub open spec fn br_start(tag: Tag) -> Token { Token::Tag(Tag { kind: TagKind::StartTag, attrs: m0_no_attrs(), ..tag }) }
